@@ -112,13 +112,16 @@ func c18Context() map[string]interface{} {
 		"lom":    []map[string]interface{}{{"n": 2, "l": c18SpareIface([]interface{}{1}, 3)}, {"n": 1}},
 		"emb":    &c18Emb{Name: "e"},                              // embedded pointers are nil: promoted fields are unreachable
 		"embv":   c18Emb{Name: "v", C18Addr: &C18Addr{City: "C"}}, // and here reachable
-		"a":      "str",
-		"csv":    "c,a,b",
-		"n":      5,
-		"f":      1.5,
-		"t":      true,
-		"nil":    nil,
-		"when":   time.Date(2024, 3, 5, 14, 7, 9, 0, time.UTC),
+		// YAML-style maps nested in string-keyed maps and lists (what a config file decodes to)
+		"cfg": map[string]interface{}{"ports": map[interface{}]interface{}{443: "https", 80: "http"}, "names": map[interface{}]interface{}{"a": 1, 2: "b"},
+			"list": []interface{}{map[interface{}]interface{}{1: "one"}, map[interface{}]interface{}{"k": []interface{}{map[interface{}]interface{}{true: 1}}}}},
+		"a":    "str",
+		"csv":  "c,a,b",
+		"n":    5,
+		"f":    1.5,
+		"t":    true,
+		"nil":  nil,
+		"when": time.Date(2024, 3, 5, 14, 7, 9, 0, time.UTC),
 	}
 }
 
@@ -321,6 +324,9 @@ var c18Fixed = []string{
 	"{% block b %}{% spaceless %}{% import 'lib' as zz6 %}{% endspaceless %}{% endblock %}",
 	"{% verbatim %}{% set a = 1 %}{% endverbatim %}{% spaceless %}{% from 'lib' import f as zz7 %}{% endspaceless %}",
 	"{% macro mm(q) %}{% set a = q %}{{ a }}{% endmacro %}{{ mm('inner') }}{{ _self.mm(n) }}{{ a }}",
+	// encoders and printers over nested maps with non-string keys
+	"{{ cfg|json_encode }}|{{ cfg.ports|json_encode }}|{{ cfg.ports|keys|json_encode }}|{{ cfg.list|json_encode }}|{{ [cfg.names]|json_encode }}|{{ {'w': cfg.ports}|json_encode }}|{{ cfg.list|first|keys|join }}",
+	"{{ dump(cfg) }}{{ cfg.ports|keys|sort|join(',') }}{{ cfg.names|length }}{% for k, v in cfg.ports %}{{ k }}={{ v }};{% endfor %}{{ cfg.ports|merge({'x': 1})|length }}{{ cfg }}",
 	// promoted fields behind nil embedded pointers: reading them must not allocate into the caller's struct
 	"{{ emb.Name }}|{{ emb.City }}|{{ emb.Zip }}|{{ emb.City is defined ? 'd' : 'u' }}|{{ emb.Deep.City }}|{{ embv.City }}|{{ embv.Zip|length }}|{{ embv.Deep.City }}",
 	"{% for k in [1, 2] %}{{ emb.City|default('none') }}{{ emb['City'] }}{{ emb.C18Addr }}{% endfor %}{{ emb.Deep }}",
